@@ -394,6 +394,27 @@ def writeCloned (dst : View) (src : List Elem) : M Unit := do
   dassert (decide (dst.len = src.length))
   writeClonedLoop dst 0 src
 
+/-- the cloning part of `extend_from_slice`: clone `other` into the free space behind the
+contents — first into the free segment that starts right behind the back element, then (if the
+free space wraps around the array end) into the one at the start of the array.  The length is
+committed after each segment, so that a panicking `clone` leaks nothing. -/
+def cloneIntoFree (other : List Elem) : M Unit := do
+  let (right, _) ← slicesUninitMut
+  let writeLen := min right.len other.length
+  writeCloned ⟨right.off, writeLen⟩ (other.take writeLen)
+  let b1 ← getBuf
+  let n1 ← liftE (uadd b1.size writeLen)
+  setSize n1
+  let other' := other.drop writeLen
+  if other'.length ≠ 0 then do
+    let (left, _) ← slicesUninitMut
+    dassert (decide (left.len ≥ other'.length))
+    writeCloned ⟨left.off, other'.length⟩ other'
+    let b2 ← getBuf
+    let n2 ← liftE (uadd b2.size other'.length)
+    setSize n2
+  else pure ()
+
 def extendFromSlice (other : List Elem) : M Unit := do
   let b ← getBuf
   if b.cap = 0 then pure () else do
@@ -407,21 +428,7 @@ def extendFromSlice (other : List Elem) : M Unit := do
           let keep ← liftE (usub b.cap other.length)
           truncateFront keep
           pure b.cap
-      let (right, _) ← slicesUninitMut
-      let writeLen := min right.len other.length
-      writeCloned ⟨right.off, writeLen⟩ (other.take writeLen)
-      let b1 ← getBuf
-      let n1 ← liftE (uadd b1.size writeLen)
-      setSize n1
-      let other' := other.drop writeLen
-      if other'.length ≠ 0 then do
-        let (left, _) ← slicesUninitMut
-        dassert (decide (left.len ≥ other'.length))
-        writeCloned ⟨left.off, other'.length⟩ other'
-        let b2 ← getBuf
-        let n2 ← liftE (uadd b2.size other'.length)
-        setSize n2
-      else pure ()
+      cloneIntoFree other
       let b3 ← getBuf
       dassert (decide (b3.size = finalSize))
     else do
